@@ -93,7 +93,8 @@ func rulesC01(r *Run) {
 	groupResultReturned(r, "R2", "runPreChecks", 2)
 	ruleRunContextDetached(r, "R2")
 	ruleGroupsRunWhenPendingAll(r, "R2", "PreChecks") // pending pre-checks are always run (mutation sweep)
-	r.Expect("R2", 9)
+	ruleParallelVerdict(r, "R2")
+	r.Expect("R2", 11)
 
 	// ---- R3: execSeq sequential, ordered, gated
 	r.Kind("R3", "K2")
@@ -108,7 +109,9 @@ func rulesC01(r *Run) {
 	// ---- R5: join before leaving ExecuteSequences
 	r.Kind("R5", "K3")
 	ruleJoinJ1(r, "R5", smKey("ExecuteSequences"))
-	r.Expect("R5", 1)
+	// "post-checks begin only after …, deferred checks last": a check group's run ends only when all of its actions have (round-4 seed C01-7)
+	ruleJoinJ1(r, "R5", smKey("runActionsParallel"), smKey("runPreChecks"), smKey("runBypasses"))
+	r.Expect("R5", 4)
 
 	// ---- R6: confinement of plugin invocation
 	r.Kind("R6", "K4")
